@@ -27,7 +27,7 @@ Scipy / lsoda integrator) over enumerated small reaction networks:
        steady-state flux;
   (I)  run-time contract attached (icontract.ensure, monkey-patched) to the real
        ``Scipy.integrate_to_steady_state``: a state returned as steady does not move by more
-       than 2 tol_eff + noise when an independent solver (scipy solve_ivp, rtol 1e-10) advances it
+       than 2 tol_eff + noise when an independent solver (scipy solve_ivp Radau, rtol 1e-9) advances it
        by another 100 time units.  It covers the calls nested in scan workers; evaluations counted.
   (F)  networks WITHOUT a steady state (constant accumulation dx/dt = c, accumulation behind a
        steady intermediate, constant depletion, exponential growth, growth feeding a second
@@ -58,7 +58,7 @@ MIN_RATE = 0.04  # slowest admitted relaxation rate (bounded relaxation time 25 
 DEFAULT_TOL = 1e-6  # Simulator.simulate_to_steady_state(tolerance=1e-6)
 # assumed accuracy of spi.ode('lsoda') (its default rtol = 1e-6, atol = 1e-12) over one search
 # step near the steady state, relative to the size of the state:  d = NOISE * max(|y*|, |y0|)
-NOISE = 2e-6
+NOISE = 5e-6
 VARS3 = ("x0", "x1", "x2")
 
 
@@ -298,6 +298,10 @@ _ATTACHED = {"on": False, "orig": None}
 _LAST = {}
 
 
+class _Budget(Exception):
+    pass
+
+
 def _steady_post(self, tolerance, rel_norm, result) -> bool:
     """A state returned as steady does not move when an independent solver advances it."""
     from scipy.integrate import solve_ivp
@@ -311,13 +315,27 @@ def _steady_post(self, tolerance, rel_norm, result) -> bool:
     if not np.all(np.isfinite(y)):
         _LAST.update(state=[float(v) for v in y], moved=math.inf, limit=0.0)
         return False
-    with warnings.catch_warnings():
-        warnings.simplefilter("ignore")
-        sol = solve_ivp(self.rhs, (0.0, STEP), y, method="LSODA", rtol=1e-10, atol=1e-13)
     scale = float(np.max(np.abs(y)))
     tol_eff = tolerance * (scale if rel_norm else 1.0)
     limit = 2 * tol_eff + 3 * NOISE * max(scale, 1e-12)
-    moved = float(np.linalg.norm(sol.y[:, -1] - y)) if sol.success else math.inf
+    budget = {"n": 0}
+
+    def rhs(t, x):  # bounded work: a state that needs > 4000 evaluations for one step is not steady
+        budget["n"] += 1
+        if budget["n"] > 4000:
+            raise _Budget
+        out = np.asarray(self.rhs(t, x), dtype=float)
+        if not np.all(np.isfinite(out)):
+            raise _Budget
+        return out
+
+    try:
+        with warnings.catch_warnings():
+            warnings.simplefilter("ignore")
+            sol = solve_ivp(rhs, (0.0, STEP), y, method="Radau", rtol=1e-9, atol=1e-12, t_eval=[STEP])
+        moved = float(np.linalg.norm(sol.y[:, -1] - y)) if sol.success and sol.y.shape[1] else math.inf
+    except (_Budget, ArithmeticError, ValueError):  # Radau refuses non-finite Jacobians with ValueError
+        moved = math.inf
     _LAST.update(state=[float(v) for v in y], moved=moved, limit=limit, t=float(tc.time[-1]))
     return moved <= limit
 
@@ -582,7 +600,7 @@ def _scan_shim(max_workers):
     from mxlpy import scan as scan_mod
 
     orig = scan_mod.parallelise
-    scan_mod.parallelise = functools.partial(orig, max_workers=max_workers)
+    scan_mod.parallelise = functools.partial(orig, max_workers=max_workers, disable_tqdm=True)
     return orig
 
 
@@ -682,7 +700,7 @@ def stable_specs(tier: str, rng: random.Random):
     """All rate-constant assignments for the small topologies, a sample for the larger ones;
     every spec has at least one slow (<= 0.15) constant or is all-fast."""
     pool = K_QUICK if tier == "quick" else K_FULL
-    cap = 14 if tier == "quick" else 160
+    cap = 12 if tier == "quick" else 160
     specs = []
     for name, (r, mk) in TOPOLOGIES.items():
         combos = list(itertools.product(pool, repeat=r))
@@ -691,8 +709,13 @@ def stable_specs(tier: str, rng: random.Random):
             # keep the all-slow and the stiffest assignment in any sample
             keep = [tuple([pool[0]] * r), tuple([pool[0]] + [pool[-1]] * (r - 1)), tuple([pool[-1]] * (r - 1) + [pool[0]])]
             combos = keep + [c for c in combos if c not in keep][: cap - len(keep)]
-        for i, ks in enumerate(combos):
-            specs.append(mk(list(ks), INFLUX[i % len(INFLUX)]))
+        i = 0
+        for ks in combos:
+            spec = mk(list(ks), INFLUX[i % len(INFLUX)])
+            if analyse(spec, INIT_A[: spec["n"]]) is None:
+                continue  # relaxation slower than the admitted bound (reversible steps): outside the scope
+            specs.append(spec)
+            i += 1
     return specs
 
 
@@ -706,7 +729,7 @@ def make_cases(tier: str, rng: random.Random):
         combos = list(itertools.product(kinds, tols, (False, True)))
         if tier == "quick":
             rng.shuffle(combos)
-            combos = combos[:10]
+            combos = combos[:8]
         for kind, tol, rel in combos:
             cases.append({"kind": "stable", "entry": "simulator", "spec": spec, "y0": kind, "tol": tol, "rel": rel if tol is not None or rel else None})
         # after an earlier simulate(): fewer combinations
@@ -854,7 +877,8 @@ def run(ctx: Ctx) -> None:
         ctx.fail(key=k, kind="bounded", what=f["what"], witness=_witness(case), replayed=replayed,
                  detail=f["detail"] | {"failing_clause_instances_total": n_fail})
 
-    worst = max((r["stats"].get("err_over_bound", 0.0) for r in results), default=0.0)
+    worst_r = max(results, key=lambda r: r["stats"].get("err_over_bound", 0.0))
+    worst = worst_r["stats"].get("err_over_bound", 0.0)
     worst_imb = max((r["stats"].get("imbalance_over_bound", 0.0) for r in results), default=0.0)
     fmax = max((r["stats"].get("F", 0.0) for r in results), default=0.0)
     late = sum(1 for r in results if r["outcome"] == "success" and r["stats"].get("t", 0) > 2 * STEP)
@@ -886,13 +910,14 @@ def run(ctx: Ctx) -> None:
         "integrator_contract_evaluations": evals,
         "integrator_contract_evaluations_on_success": evals_success,
         "max_error_over_bound_on_passing_and_failing_cases": worst,
+        "max_error_over_bound_case": _witness(by_id[worst_r["id"]]) | {"stats": worst_r["stats"]},
         "max_flux_imbalance_over_bound": worst_imb,
         "max_amplification_factor_F": fmax,
         "failing_clause_instances": n_fail,
     }
     ctx.trust(
         "numpy.linalg (lstsq, eigvals, norm, inv), scipy.linalg.expm / null_space for the oracle",
-        "scipy.integrate.solve_ivp(LSODA, rtol=1e-10) advances a state by 100 time units to its tolerance (contract (I))",
+        "scipy.integrate.solve_ivp(Radau, rtol=1e-9, atol=1e-12) advances a state by 100 time units to its tolerance (contract (I))",
         "icontract.ensure evaluates the post-condition after every wrapped call (evaluations counted)",
     )
     ctx.assume(
